@@ -89,6 +89,10 @@ def build_config(scn, workdir=None):
            'default_data_file': os.path.join(os.path.abspath(workdir), 't.data') if workdir else 't.data',
            'benchmark_suites': suites, 'executors': execs,
            'experiments': {'T': {'executions': [{'E%d%s' % (x, nsfx): {'suites': ss}} for x, ss in sorted(per_exe.items())]}}}
+    if scn.get('two_experiments'):
+        # the same runs belong to a second experiment that shares the data file; the session runs `all`
+        import copy
+        cfg['experiments']['T2'] = copy.deepcopy(cfg['experiments']['T'])
     return cfg
 
 
@@ -221,6 +225,7 @@ class Script(object):
         self.gate = None       # thread controller (parallel scenarios)
         self.unknown = []
         self.build_runs = {}   # build key -> how often it ran
+        self.unbuilt_starts = []   # benchmark starts whose build had not run in this session
         self.commands = []     # [run, invocation, time wrapper] of every benchmark start
         self.probes = []       # argv[0] of the Time adapter's availability probes
         # builds with identical text are told apart by the directory they run in
@@ -250,6 +255,21 @@ class Script(object):
         o = sc[k - 1] if k <= len(sc) else DEFAULT_FAIL
         if self.gate is not None:
             self.gate.block(i, inv)
+        if self.sess.get('needs_build'):
+            # build products do not survive a session: a benchmark whose executor / suite build has not run in
+            # THIS session cannot work
+            r = self.scn['runs'][i]
+            need = []
+            if r.get('ebuild') is not None:
+                need.append('e%d' % r['ebuild'])
+            if r.get('sbuild') is not None:
+                need.append('s%d' % r['sbuild'])
+            with self.lock:
+                missing = [b for b in need if not self.build_runs.get(b)]
+            if missing:
+                rec['unbuilt'] = missing
+                self.unbuilt_starts.append([i, inv, missing])
+                return drive.Outcome(1, 'not built: %s\n' % ' '.join(missing))
         if 'oserror' in o:
             return drive.Outcome(oserror=o['oserror'])
         if o.get('interrupt'):
@@ -342,7 +362,7 @@ def run_session(workdir, scn, sess, timeout_guard=None):
                                  for r in runs)
         return orig(self, runs, *a, **kw)
 
-    argv = [conf] + list(sess.get('argv') or [])
+    argv = [conf] + (['all'] if scn.get('two_experiments') else []) + list(sess.get('argv') or [])
     if sess.get('sched') and sess['sched'] != 'batch':
         argv += ['-s', sess['sched']]
     if sess.get('faulty'):
@@ -390,7 +410,7 @@ def run_session(workdir, scn, sess, timeout_guard=None):
            'mentions_missing_adapter': ("Couldn't find gauge adapter" in res.stdout + res.stderr),
            'order': grabbed.get('order'), 'loaded': grabbed.get('loaded'),
            'log': [list(x) for x in script.log], 'unknown_starts': script.unknown,
-           'commands': script.commands, 'probes': script.probes,
+           'commands': script.commands, 'probes': script.probes, 'unbuilt_starts': script.unbuilt_starts,
            'nchoices': pos['i'], 'out_tail': (res.stdout + res.stderr)[-600:]}
     if controller is not None:
         obs['released'] = controller.released
